@@ -149,7 +149,24 @@ where
             let k = geti(v, "k");
             let pk = lib.sk::<C>(k).public_key();
             let ms: Vec<i64> = geta(v, "ms").iter().map(|x| x.as_i64().unwrap()).collect();
-            let cts: Vec<ElGamalCiphertext<C>> = ms.iter().map(|m| pk.encrypt_key_el_gamal(&plain(*m)).expect("encrypt")).collect();
+            let plan = v.get("plan").and_then(|x| x.as_str()).unwrap_or("fresh");
+            let l = ms.len();
+            let b1 = Sc::<C>::random(&mut rng);
+            let mut cts: Vec<ElGamalCiphertext<C>> = vec![];
+            for (i, m) in ms.iter().enumerate() {
+                let chosen = |b: Sc<C>| -> ElGamalCiphertext<C> {
+                    let (c1, c2) = <C as BlsElGamal>::seal_scalar(pk.0, sc::<C>(*m), None, Some(b), rand_chacha::ChaCha8Rng::seed_from_u64(1)).expect("seal_scalar with a chosen blinder");
+                    ElGamalCiphertext { c1, c2 }
+                };
+                let triv = ElGamalCiphertext::<C> { c1: <C as Pairing>::PublicKey::identity(), c2: hm * sc::<C>(*m) };
+                cts.push(match (plan, i) {
+                    ("cancel", 0) => chosen(b1),
+                    ("cancel", 1) => chosen(-b1),
+                    ("trivfirst", 0) if l >= 2 => triv,
+                    ("trivlast", x) if l >= 2 && x == l - 1 => triv,
+                    _ => pk.encrypt_key_el_gamal(&plain(*m)).expect("encrypt"),
+                });
+            }
             // every form of addition the type offers must agree
             let mut s1 = cts[0];
             let mut s2 = cts[0];
@@ -165,12 +182,24 @@ where
                 s5 += *c;
                 s6 += c;
             }
-            for s in [&s2, &s3, &s4, &s5, &s6] {
+            // the same sum folded from the neutral element, and the component-wise sum
+            let mut s7 = ElGamalCiphertext::<C> { c1: <C as Pairing>::PublicKey::identity(), c2: <C as Pairing>::PublicKey::identity() };
+            let (mut w1, mut w2) = (<C as Pairing>::PublicKey::identity(), <C as Pairing>::PublicKey::identity());
+            for c in &cts {
+                s7 = s7 + *c;
+                w1 += c.c1;
+                w2 += c.c2;
+            }
+            let s8 = ElGamalCiphertext::<C> { c1: w1, c2: w2 };
+            for s in [&s2, &s3, &s4, &s5, &s6, &s7, &s8] {
                 if *s != s1 {
-                    return Outcome::fail(json!({}), "the addition forms of ElGamalCiphertext disagree");
+                    return Outcome::fail(json!({"plan": plan}), "the addition forms of ElGamalCiphertext disagree (with each other, with the fold from the neutral element, or with the component-wise sum)");
                 }
             }
             let d = s1.decrypt(&lib.sk::<C>(geti(v, "k2")));
+            if <C as BlsElGamal>::decrypt(lib.sk::<C>(geti(v, "k2")).0, s1.c1, s1.c2) != d {
+                return Outcome::fail(json!({"path": "trait"}), "the trait-level decrypt and ElGamalCiphertext::decrypt disagree");
+            }
             let total: i64 = ms.iter().sum();
             let eq = d == hm * sc::<C>(total);
             if eq != getb(&v["expect"], "eq") {
@@ -204,6 +233,14 @@ where
                 let got = if r.is_ok() { "Ok" } else { "Err" };
                 if got != want {
                     return Outcome::fail(json!({"res": got}), format!("spec predicts {want}, ElGamalProof::verify returned {got}"));
+                }
+                {
+                    let t = <C as BlsElGamal>::verify_proof(vpk.0, None, p.ciphertext.c1, p.ciphertext.c2, p.message_proof, p.blinder_proof, p.challenge);
+                    let tg = if t.is_ok() { "Ok" } else { "Err" };
+                    if tg != want {
+                        return Outcome::fail(json!({"path": "trait", "trait": tg, "struct": got}), format!("spec predicts {want}, the trait-level verify_proof returned {tg}"));
+                    }
+                    o.extra += 1;
                 }
                 if let Some((c1, c2, mp, bp, ch)) = ref_view::<C, R>(&p) {
                     let rv = ref_verify::<R>(tables, &rf.pk::<R>(&v["pk"]), &c1, &c2, &mp, &bp, &ch);
@@ -266,6 +303,14 @@ where
                 let got = if r.is_ok() { "Ok" } else { "Err" };
                 if got != want {
                     return Outcome::fail(json!({"res": got}), format!("spec predicts {want}, verify_and_decrypt returned {got}"));
+                }
+                {
+                    let t = <C as BlsElGamal>::verify_and_decrypt(lib.sk::<C>(geti(v, "k2")).0, None, p.ciphertext.c1, p.ciphertext.c2, p.message_proof, p.blinder_proof, p.challenge);
+                    let tg = if t.is_ok() { "Ok" } else { "Err" };
+                    if tg != want || t.as_ref().ok() != r.as_ref().ok() {
+                        return Outcome::fail(json!({"path": "trait", "trait": tg, "struct": got}), format!("spec predicts {want}, the trait-level verify_and_decrypt returned {tg} (or another point)"));
+                    }
+                    o.extra += 1;
                 }
                 if let Ok(d) = r {
                     let eq = d == hm * sc::<C>(geti(v, "m"));
